@@ -8,7 +8,8 @@ import (
 // inlined or split, the same construct turns up under another name and the old name is gone from the program. The two
 // keys then differ in exactly one segment - the old one names no function any more, the new one names a function that
 // exists. movedKey finds such an entry; it never transfers an entry whose function still exists (that entry is in use or
-// stale for another reason), so a second, new violation of the same shape is still reported.
+// stale for another reason) unless the new function is a helper that only the recorded function calls (the construct was
+// split out of it), so a second, new violation of the same shape elsewhere is still reported.
 
 // funcNameSet: every name under which a source function can appear in a key (the rendered name and the bare name).
 func (c *Ctx) funcNameSet() map[string]bool {
@@ -65,8 +66,20 @@ func (c *Ctx) movedMatch(old, cur string) int {
 		return 0
 	}
 	oldSeg, newSeg := stripOrdinal(a[diff]), stripOrdinal(b[diff])
-	if names[oldSeg] || !names[newSeg] {
+	if !names[newSeg] {
 		return 0
+	}
+	if names[oldSeg] {
+		// the recorded function still exists: the construct may have been split out of it into a helper that only it calls
+		helper := false
+		for _, fn := range c.AllSrcFuncs("", "parser", "ast", "file", "token", "registry") {
+			if (ssaFuncName(fn) == newSeg || fn.Name() == newSeg) && ssaFuncName(fn) != oldSeg && c.partOf(fn, oldSeg, 0) {
+				helper = true
+			}
+		}
+		if !helper {
+			return 0
+		}
 	}
 	if exact && a[diff][len(oldSeg):] == b[diff][len(newSeg):] {
 		return 2
